@@ -455,12 +455,14 @@ def requiredLegacy (r : ReqCall) (shape : List Field) (_p : Partial) : List Fiel
 
 /-- after C02-object-required: the listed fields (all for `Required()`) are entered in `RequiredKeys`, which
     `isFieldOptional` consults first; the other fields keep their state. -/
+def ReqCall.names (r : ReqCall) (shape : List Field) : List Nat :=
+  match r with
+  | .all => shape.map (·.name)
+  | .keys ks => ks
+
 def requiredFixed (r : ReqCall) (shape : List Field) (p : Partial) : List Field × Partial :=
-  let ks := match r with
-    | .all => shape.map (·.name)
-    | .keys ks => ks
-  (shape.map (fun f => if ks.contains f.name then { f with optional := false } else f),
-   if p.on then { p with exceptions := some (p.exceptions.getD [] ++ ks) } else p)
+  (shape.map (fun f => if (r.names shape).contains f.name then { f with optional := false } else f),
+   if p.on then { p with exceptions := some (p.exceptions.getD [] ++ r.names shape) } else p)
 
 def applyRequired (cfg : Cfg) (r : Option ReqCall) (shape : List Field) (p : Partial) : List Field × Partial :=
   match r with
